@@ -2,6 +2,7 @@ package p2ph
 
 import (
 	"context"
+	"os"
 	"fmt"
 	"sync"
 	"testing"
@@ -195,6 +196,8 @@ func behave(b string, r reqLog, chain *vh.Chain, avail int, from int, chunk int)
 	return plan{end: "reset"}, nil, true
 }
 
+const livelockAfter = 100 * time.Second
+
 func TestRange(t *testing.T) {
 	cases, rw, tw := openIO(t)
 	defer rw.Close()
@@ -215,6 +218,14 @@ func TestRange(t *testing.T) {
 		capable := false
 		curTr := id // the trace id events are logged under (a second session of the same client gets its own)
 		var second []RangeEv
+		// watchdog in REAL time, outside the bubble: a session that spins without ever blocking (no virtual time passes, the
+		// bubble never becomes quiescent) would otherwise only end with the driver's timeout.  A case takes milliseconds.
+		wd := time.AfterFunc(livelockAfter, func() {
+			fmt.Fprintf(os.Stderr, "VH-LIVELOCK case=%d: the call neither returned nor blocked within %s of real time\n", id, livelockAfter)
+			rw.Flush()
+			tw.Flush()
+			os.Exit(7)
+		})
 		synctest.Test(t, func(t *testing.T) {
 			bg := context.Background()
 			shift := mbt.Bool(c, "shiftSecond") // the second call asks for the NEXT range (from+amount ..), held by other peers
@@ -400,6 +411,7 @@ func TestRange(t *testing.T) {
 			time.Sleep(time.Minute)
 			synctest.Wait()
 		})
+		wd.Stop()
 		log.mu.Lock()
 		// the session log starts with "start": move it to the front (peers are created before it is written)
 		var evs []RangeEv
